@@ -4,6 +4,7 @@ delimits, the sub-nodes of a tree, and what it means for the extent of a call / 
 -/
 import MesonModel.Lang.LinePos
 import MesonModel.Lang.EmitLemmas
+import MesonModel.Lang.LexLineCol
 
 namespace MesonModel.Lang
 
@@ -57,29 +58,57 @@ def subL : List Node → List Node
   | n :: ns => sub n ++ subL ns
 end
 
-/-- the extent recorded on a call or array node delimits exactly the source of the construct: from the first
-character of its first token (`f` of `f(...)`, the method name of `obj.name(...)` — a `MethodNode` is positioned
-at its name, `mparser.py:534` —, the `[` of an array) to the last character of its closing `)` / `]`; that
-text is the raw print of the parts without the trivia that follows the closing token -/
+/-- the recorded extent `(lineno, colno) … (end_lineno, end_colno)` of a node is exact: both line/column pairs
+are the addresses (`Addr`: line = 1 + newlines before, column = distance to the previous newline) of the
+offsets they denote in the rewriter's line table, and the text between the two offsets is `core` -/
+def ExtentIs (s : Str) (b : Base) (core : Str) : Prop :=
+  Addr s b.lineno b.colno (lineOff s b.lineno + b.colno) ∧
+  Addr s b.endLineno b.endColno (lineOff s b.endLineno + b.endColno) ∧
+  extentSlice s b = core
+
+instance (s : Str) (b : Base) (core : Str) : Decidable (ExtentIs s b core) := by unfold ExtentIs; infer_instance
+
+/-- no end position is recorded on the node: `end_lineno/end_colno` are the `BaseNode` defaults (= start) -/
+def NoEnd (b : Base) : Prop := b.endLineno = b.lineno ∧ b.endColno = b.colno
+
+instance (b : Base) : Decidable (NoEnd b) := by unfold NoEnd; infer_instance
+
+/-- what the position fields of a node must say. The five node kinds whose constructor records an end position
+(`FunctionNode`, `MethodNode`, `ArrayNode`, `DictNode`, `ParenthesizedNode`): the extent delimits exactly the
+source of the construct, from the first character of its first token (`f` of `f(...)`, the method name of
+`obj.name(...)` — a `MethodNode` is positioned at its name, `mparser.py:534` —, the `[` / `{` / `(`) to the
+last character of its closing `)` / `]` / `}`; that text is the raw print of the parts without the trivia that
+follows the closing token. Every other node kind (strings — also multi-line ones —, numbers, ids, symbols,
+index expressions, operators, assignments, blocks, clauses, argument lists, the empty node) records no end
+position at all: `end_lineno/end_colno` repeat the start. (An `ArgumentNode` additionally has `order_error`
+unset: the invariant is only established while the ghost counter `lossy` is `0`, and the counter is incremented
+exactly where `ArgumentNode.append` sets the flag.) -/
 def SpanExact (s : Str) : Node → Prop
-  | .function b name lpar a rpar => extentSlice s b = emit name ++ emit lpar ++ emit a ++ symValue rpar
-  | .method b _ _ name lpar a rpar => extentSlice s b = emit name ++ emit lpar ++ emit a ++ symValue rpar
-  | .array b l a r => extentSlice s b = emit l ++ emit a ++ symValue r
-  | _ => True
+  | .function b name lpar a rpar => ExtentIs s b (emit name ++ emit lpar ++ emit a ++ symValue rpar)
+  | .method b _ _ name lpar a rpar => ExtentIs s b (emit name ++ emit lpar ++ emit a ++ symValue rpar)
+  | .array b l a r => ExtentIs s b (emit l ++ emit a ++ symValue r)
+  | .dict b l a r => ExtentIs s b (emit l ++ emit a ++ symValue r)
+  | .paren b l i r => ExtentIs s b (emit l ++ emit i ++ symValue r)
+  | .args b _ _ _ _ _ oe => NoEnd b ∧ oe = false
+  | n => NoEnd n.base
+
+instance (s : Str) (n : Node) : Decidable (SpanExact s n) := by
+  cases n <;> simp only [SpanExact] <;> infer_instance
 
 /-- executable form of `SpanExact` -/
-def spanExactB (s : Str) : Node → Bool
-  | .function b name lpar a rpar => extentSlice s b == emit name ++ emit lpar ++ emit a ++ symValue rpar
-  | .method b _ _ name lpar a rpar => extentSlice s b == emit name ++ emit lpar ++ emit a ++ symValue rpar
-  | .array b l a r => extentSlice s b == emit l ++ emit a ++ symValue r
-  | _ => true
+def spanExactB (s : Str) (n : Node) : Bool := decide (SpanExact s n)
+
+/-- the node kinds that record an end position -/
+def Node.recordsEnd : Node → Bool
+  | .function .. | .method .. | .array .. | .dict .. | .paren .. => true
+  | _ => false
 
 /-- call and array nodes -/
 def Node.isCallOrArray : Node → Bool
   | .function .. | .method .. | .array .. => true
   | _ => false
 
-/-- every call / array node of the tree has an exact extent -/
+/-- every node of the tree has exact position fields -/
 def Spans (s : Str) (n : Node) : Prop := ∀ m ∈ sub n, SpanExact s m
 def SpansL (s : Str) (l : List Node) : Prop := ∀ m ∈ subL l, SpanExact s m
 
